@@ -75,7 +75,8 @@ def gen_alm_op(rng, stack=None, **over):
                'hess': '1', 'mem': str(rng.choice([2, 5, 10])),
                'almiter': str(rng.choice([20, 60, 100])), 'maxiter': str(rng.choice([200, 2000])),
                'usesig': str(rng.choice([0, 0, 1])), 'singlepen': str(rng.choice([0, 0, 0, 1])),
-               'penfac': f2h(rng.choice([2.0, 10.0, 100.0])), 'initpen': f2h(rng.choice([0.0, 1.0, 16.0]))})
+               'penfac': f2h(rng.choice([2.0, 10.0, 100.0])), 'initpen': f2h(rng.choice([0.0, 1.0, 16.0])),
+               'maxmult': f2h(rng.choice([1e9, 1e9, 1e9, 4.0, 1.0, 0.25]))})
     if stack == 'fista':
         op['maxiter'] = '5000'
     for k, v in over.items():
